@@ -1155,7 +1155,12 @@ impl HandlerRunner {
                             }
                         }
                         match self.ledger.key_nonce.get(&(k, p.nonce)) {
-                            Some(h0) if *h0 != h => out.push(format!("!MON C19 nonce-reused-under-key node={}", from)),
+                            Some(h0) if *h0 != h => {
+                                out.push(format!("!MON C19 nonce-reused-under-key node={}", from));
+                                // (C02: two different datagrams under one key and nonce give whoever saw both
+                                // the authentication key of that nonce - it can then make up messages of this peer)
+                                out.push(format!("!MON C02 nonce-reused-under-key-messages-can-be-forged node={}", from));
+                            }
                             _ => {
                                 self.ledger.key_nonce.insert((k, p.nonce), h);
                             }
